@@ -43,6 +43,26 @@ pub fn values<S: Source>(s: &mut S, op: Ew, da: &[usize], db: &[usize]) {
     forget((a, b, r));
 }
 
+/// full-width anchor of the data-independence argument: shape [1], *every* pair of float bit
+/// patterns (NaN agrees with NaN)
+pub fn values_full<S: Source>(s: &mut S, op: Ew) {
+    let a = mk(s, &[1], Dom::Full);
+    let b = mk(s, &[1], Dom::Full);
+    let (x, y) = (a.values()[0], b.values()[0]);
+    let (r, e) = match op {
+        Ew::Add => (&a + &b, x + y),
+        Ew::Sub => (&a - &b, x + (y * -1.0)),
+        Ew::Mul => (&a * &b, x * y),
+        Ew::Div => (&a / &b, x / y),
+        Ew::Axpy => (Array::axpy(2.0, &a, &b), 2.0 * x + y),
+    };
+    chk!(dims_eq(r.dimensions(), &[1]), "[C04:dims] result dimensions are not the pairwise maximum");
+    let v = r.values()[0];
+    chk!(v == e || (v != v && e != e), "[C04:value] element differs from the broadcast definition");
+    witness();
+    forget((a, b, r));
+}
+
 /// incompatible pair: the operation must panic on every path
 pub fn refusal<S: Source>(s: &mut S, op: Ew, da: &[usize], db: &[usize]) {
     let a = mk(s, da, Dom::D4);
